@@ -304,3 +304,13 @@ def run(ctx):
     for (rule, k, ok, detail, site) in sc.findings:
         if k in ("C09/mirror/SealedToken", "C09/remainder/SealedToken"):
             ctx.add("R02.8", "C02/R02.8/" + k.split("/", 1)[1], ok, detail, site)
+
+
+# ---- R02.10 (shared with C17 R17.4): no static / thread-local state in the library crates, so the verification key is derived
+# from the key parameter of THIS call (a process-wide cache of a key-derived value would make the first key win)
+_run_c02 = run
+def run(ctx):
+    _run_c02(ctx)
+    import shared
+    shared.share(ctx, "c17", lambda r, k: r == "R17.4", "R02.10", "C02/no-shared-state/")
+FLOORS["R02.10"] = 8
